@@ -25,10 +25,16 @@ Arguments t_all {V T}. Arguments t_eqb {V T}. Arguments t_enc {V T}. Arguments t
 
 Definition rt_ok {V T} (t : enum_table V T) (v : V) : bool :=
   match t_dec t (t_enc t v) with Some w => t_eqb t w v | None => false end.
-Definition table_ok {V T} (t : enum_table V T) : bool := forallb (rt_ok t) (t_all t).
-(* the variants whose round trip fails (failing inputs of the property) *)
-Definition bad_variants {V T} (t : enum_table V T) : list string :=
-  map (t_name t) (filter (fun v => negb (rt_ok t v)) (t_all t)).
+(* `bad` = the variants already listed as known findings (their round trip is known to fail) *)
+Definition listed {V T} (t : enum_table V T) (bad : list V) (v : V) : bool := existsb (t_eqb t v) bad.
+Definition table_ok {V T} (t : enum_table V T) (bad : list V) : bool :=
+  forallb (fun v => rt_ok t v || listed t bad v) (t_all t).
+(* the variants whose round trip fails and that are not listed (failing inputs of the property) *)
+Definition bad_variants {V T} (t : enum_table V T) (bad : list V) : list string :=
+  map (t_name t) (filter (fun v => negb (rt_ok t v || listed t bad v)) (t_all t)).
+(* listed variants that round-trip now (the finding was fixed in the source) *)
+Definition stale_listed {V T} (t : enum_table V T) (bad : list V) : list string :=
+  map (t_name t) (filter (rt_ok t) bad).
 (* pairs of distinct variants sharing one wire tag *)
 Fixpoint clash_pairs {V T} (teqb : T -> T -> bool) (t : enum_table V T) (l : list V) : list (string * string) :=
   match l with
@@ -76,6 +82,7 @@ Section ExprCodec.
   Variable op_eqb : Op -> Op -> bool.            (* Operator: PartialEq *)
   Variable enc_op : Op -> string.                (* format!("{op:?}") *)
   Variable dec_op : string -> option Op.         (* from_proto_binary_op *)
+  Variable good_op : Op -> bool.                 (* operators the decoder knows (all but the listed known findings) *)
   Variable Ty : Type.
   Variable enc_ty : Ty -> string.                (* DataType -> ArrowTypeEnum case *)
   Variable dec_ty : string -> option Ty.
@@ -216,7 +223,8 @@ Section ExprCodec.
         end
     end.
 
-  (* what the round trip preserves: no metadata on literals / aliases / casts, escape characters of one byte *)
+  (* what the round trip preserves: operators the decoder knows, no metadata on literals / aliases / casts,
+     escape characters of one byte *)
   Definition one_byte (o : option string) : bool :=
     match o with None => true | Some s => Nat.eqb (String.length s) 1 end.
   Definition no_meta (o : option meta) : bool := match o with None => true | Some _ => false end.
@@ -224,7 +232,7 @@ Section ExprCodec.
     match x with
     | EColumn _ _ => true
     | ELit _ m => no_meta m
-    | EBinary l _ r => plain l && plain r
+    | EBinary l op r => good_op op && plain l && plain r
     | ENot e | EIsNull e | EIsNotNull e | ENegative e => plain e
     | EBetween e _ lo hi => plain e && plain lo && plain hi
     | ELike _ e p esc _ => plain e && plain p && one_byte esc
@@ -258,7 +266,7 @@ Arguments EColumn {Op Ty}. Arguments ELit {Op Ty}. Arguments EBinary {Op Ty}. Ar
 Arguments EIsNull {Op Ty}. Arguments EIsNotNull {Op Ty}. Arguments ENegative {Op Ty}. Arguments EBetween {Op Ty}.
 Arguments ELike {Op Ty}. Arguments ECase {Op Ty}. Arguments EInList {Op Ty}. Arguments ECast {Op Ty}.
 Arguments ETryCast {Op Ty}. Arguments EAlias {Op Ty}.
-Arguments plain {Op Ty}. Arguments esize {Op Ty}.
+Arguments plain {Op} good_op {Ty}. Arguments esize {Op Ty}.
 
 (* ------------------------------------------------------------------ Part 3: physical-plan records *)
 (* PhysicalSortExprNode { asc, nulls_first } <-> SortOptions { descending, nulls_first } *)
